@@ -63,7 +63,17 @@ struct Agg {
     panics: Vec<(String, String, String)>, // site, message, input
 }
 
+/// (e) one representative of every character class of the tokenizer, incl. every superscript and
+/// subscript shape, Unicode operator spellings, quotes, escapes, control and zero-width characters
+pub const CHARS: [&str; 76] = [
+    "0", "1", "9", ".", "_", "e", "E", "x", "b", "o", "a", "m", "µ", "°", "′", "″", "%", "+", "-", "*", "/", "^", "!", "=", "<", ">", "&", "|", "(", ")", "[", "]", "{", "}", ",", ":", ";", "\"", "'", "\\", "#", "@", "?", "~", "$", "²", "³", "⁰", "¹", "⁴", "⁹", "⁻", "ⁱ", "₀", "₁", "·", "×", "÷", "−", "→", "➞", "≤", "≥", "≠", "⩵", "…", "π", "∞", " ", "\n", "\t", "\r", "\0", "é", "😀", "\u{feff}",
+];
+
 fn sweep(rep: &mut Report, len: usize, alphabet: &[&str], with_prelude: bool, tag: &str) {
+    sweep_sep(rep, len, alphabet, with_prelude, tag, " ")
+}
+
+fn sweep_sep(rep: &mut Report, len: usize, alphabet: &[&str], with_prelude: bool, tag: &str, sep: &str) {
     let k = alphabet.len();
     let total = k.pow(len as u32);
     let chunk = 2000usize;
@@ -78,7 +88,7 @@ fn sweep(rep: &mut Report, len: usize, alphabet: &[&str], with_prelude: bool, ta
                 toks[p] = alphabet[r % k];
                 r /= k;
             }
-            let code = toks.join(" ");
+            let code = toks.join(sep);
             let mut ctx = base.clone();
             let t0 = Instant::now();
             let r = exercise(&mut ctx, &code);
@@ -524,10 +534,39 @@ pub const REDEF: [&str; 18] = [
     "rdh(2)",
 ];
 
+/// (d2) last-result histories: `ans` / `_` change their type with every expression statement;
+/// values of every kind, functions and variables that capture them, and uses of every kind
+pub const LASTRES: [&str; 12] = [
+    "\"s\"",
+    "1 m",
+    "true",
+    "fn rda() = ans",
+    "fn rdb(x) = x + _",
+    "rda()",
+    "rda() + 1 m",
+    "str_length(rda())",
+    "rdb(1 m)",
+    "let rdv = ans",
+    "rdv + 1 m",
+    "ans + 1 m",
+];
+
 fn sweep_redefinitions(rep: &mut Report) {
+    sweep_histories(rep, &REDEF, "redefinition_histories");
+    sweep_histories(rep, &LASTRES, "last_result_histories");
+}
+
+fn sweep_histories(rep: &mut Report, alphabet: &'static [&'static str], tag: &str) {
     let n = rep.tier.pick(4usize, 5usize);
-    let k = REDEF.len();
-    let base = prelude_ctx();
+    let k = alphabet.len();
+    // a small session (the cost of one input grows with the size of the session): the modules the
+    // alphabets need
+    let base = {
+        let mut c = fresh_builtin_ctx();
+        let r = run(&mut c, "use core::lists\nuse core::strings\nuse units::si");
+        assert!(r.is_ok(), "C08 history session: {:?}", r.err_string());
+        c
+    };
     let mut total = 0usize;
     for len in 1..=n {
         total += k.pow(len as u32);
@@ -560,7 +599,7 @@ fn sweep_redefinitions(rep: &mut Report) {
             // the whole history as ONE input (the late-bound call then sees the final definitions
             // before anything has run)
             if seq.len() > 1 {
-                let joined: Vec<&str> = seq.iter().map(|&i| REDEF[i]).collect();
+                let joined: Vec<&str> = seq.iter().map(|&i| alphabet[i]).collect();
                 let joined = joined.join("\n");
                 let mut ctx = base.clone();
                 steps += 1;
@@ -577,12 +616,12 @@ fn sweep_redefinitions(rep: &mut Report) {
             let mut ctx = base.clone();
             for (pos, &s) in seq.iter().enumerate() {
                 steps += 1;
-                match exercise(&mut ctx, REDEF[s]) {
+                match exercise(&mut ctx, alphabet[s]) {
                     Ok("ok") => ok += 1,
                     Ok(_) => {}
                     Err(p) => {
                         if panics.len() < 20 {
-                            let hist: Vec<&str> = seq[..=pos].iter().map(|&i| REDEF[i]).collect();
+                            let hist: Vec<&str> = seq[..=pos].iter().map(|&i| alphabet[i]).collect();
                             panics.push((p.site(), p.message.clone(), hist.join("\n")));
                         }
                         break; // the session may be inconsistent after a panic
@@ -597,10 +636,15 @@ fn sweep_redefinitions(rep: &mut Report) {
         steps += s;
         ok += o;
         for (site, msg, hist) in panics {
+            // recorded class: a function body that captures `ans` / `_` is typed with the last result
+            // of its definition time but reads the current one when called
+            let last = hist.lines().last().unwrap_or("");
+            let captures = (hist.contains("fn rda() = ans") && last.contains("rda(")) || (hist.contains("fn rdb(x) = x + _") && last.contains("rdb("));
+            let key = if captures { "class:last-result-captured-in-function-body".to_string() } else { format!("callsite:{site}") };
             rep.violation(
-                format!("callsite:{site}"),
-                format!("[redefinition history] `{}` panics: {} at {site}", hist.replace('\n', "⏎"), msg.chars().take(200).collect::<String>()),
-                json!({"history": hist}),
+                key,
+                format!("[{tag}] `{}` panics: {} at {site}", hist.replace('\n', "⏎"), msg.chars().take(200).collect::<String>()),
+                json!({"history": hist, "alphabet": tag}),
             );
         }
     }
@@ -609,7 +653,7 @@ fn sweep_redefinitions(rep: &mut Report) {
     rep.evaluations += total as u64;
     rep.validated += total as u64;
     rep.nontrivial_extra += ok;
-    rep.set("redefinition_histories", json!({"sequences": total, "max_length": n, "alphabet": k, "statements_run": steps, "statements_accepted": ok}));
+    rep.set(tag, json!({"sequences": total, "max_length": n, "alphabet": k, "statements_run": steps, "statements_accepted": ok}));
 }
 
 pub fn check(rep: &mut Report) {
@@ -630,7 +674,15 @@ pub fn check(rep: &mut Report) {
             sweep(rep, 4, &TOKENS[..36], true, "prelude");
         }
     }
-    eprintln!("[C08] token sweeps done at {:.1}s", t_start.elapsed().as_secs_f64());
+    // (e) character strings
+    for l in 1..=3 {
+        sweep_sep(rep, l, &CHARS, false, "chars", "");
+    }
+    sweep_sep(rep, 2, &CHARS, true, "chars-prelude", "");
+    if rep.tier == Tier::Thorough {
+        sweep_sep(rep, 4, &CHARS[..56], false, "chars", "");
+    }
+    eprintln!("[C08] token and character sweeps done at {:.1}s", t_start.elapsed().as_secs_f64());
     // (d)
     sweep_redefinitions(rep);
     eprintln!("[C08] redefinition histories done at {:.1}s", t_start.elapsed().as_secs_f64());
@@ -702,7 +754,7 @@ pub fn check(rep: &mut Report) {
     rep.set("extreme_cases", json!(cases.len()));
     rep.set("extreme_cases_handled_gracefully", json!(fine));
     rep.set("extreme_cases_crashing", json!(bad));
-    rep.rule = "(a) every token string of length <= L over an alphabet with one spelling of every token kind (52 tokens; prelude session: 36-token sub-alphabet at the top length), each interpreted in a fresh clone with the result echoed or the diagnostic rendered; (b) every template x extreme value/repetition count, each in its own child process with an 8 s (quick) / 20 s (thorough) limit and a 6 GiB address-space limit; (c) every standard-library function x every argument tuple from per-type edge alphabets (numbers incl. NaN/inf and dimensionful values, ASCII/multi-byte/empty strings, lists, booleans, date-times, function values), in child processes; (d) every history of <= 4 (thorough 5) statements over an 18-statement alphabet that defines one name as functions of different arity, a variable, a unit, a struct and a function value and uses it in every call shape, on a prelude session, run statement by statement and as one input; non-trivial = accepted token strings + extreme cases + functions swept + accepted history statements".into();
+    rep.rule = "(a) every token string of length <= L over an alphabet with one spelling of every token kind (52 tokens; prelude session: 36-token sub-alphabet at the top length), each interpreted in a fresh clone with the result echoed or the diagnostic rendered; (e) every character string of length <= 3 over a 76-character alphabet with one representative of every tokenizer character class (all superscript/subscript shapes, Unicode operator spellings, quotes, escapes, control and zero-width characters; thorough: length 4 over 56 of them); (b) every template x extreme value/repetition count, each in its own child process with an 8 s (quick) / 20 s (thorough) limit and a 6 GiB address-space limit; (c) every standard-library function x every argument tuple from per-type edge alphabets (numbers incl. NaN/inf and dimensionful values, ASCII/multi-byte/empty strings, lists, booleans, date-times, function values), in child processes; (d) every history of <= 4 (thorough 5) statements over an 18-statement alphabet that defines one name as functions of different arity, a variable, a unit, a struct and a function value and uses it in every call shape, on a session with core::lists, core::strings and units::si, run statement by statement and as one input, and likewise over a 12-statement alphabet of values of every kind, functions and variables capturing `ans` / `_`, and uses of them; non-trivial = accepted token strings + extreme cases + functions swept + accepted history statements".into();
     rep.assumptions = vec![
         "the harness builds numbat with debug assertions and overflow checks (a 'checked build')".into(),
         "random byte soup is not in this family; tokenizer states needing longer contexts than L tokens are only reached through the templates".into(),
@@ -745,7 +797,8 @@ pub fn replay(case: &J) -> i32 {
         return 2;
     }
     if let Some(hist) = case["history"].as_str() {
-        let mut ctx = prelude_ctx();
+        let mut ctx = fresh_builtin_ctx();
+        let _ = run(&mut ctx, "use core::lists\nuse core::strings\nuse units::si");
         if let Some(joined) = hist.strip_prefix("ONE INPUT:\n") {
             println!("{joined}");
             return match exercise(&mut ctx, joined) {
@@ -762,7 +815,7 @@ pub fn replay(case: &J) -> i32 {
         // statements of the alphabet may span two lines; replay them in the recorded grouping
         let mut rest = hist;
         while !rest.is_empty() {
-            let stmt = REDEF.iter().filter(|s| rest.starts_with(**s)).max_by_key(|s| s.len()).copied().unwrap_or(rest);
+            let stmt = REDEF.iter().chain(LASTRES.iter()).filter(|s| rest.starts_with(**s)).max_by_key(|s| s.len()).copied().unwrap_or(rest);
             println!("> {}", stmt.replace('\n', "⏎"));
             if let Err(p) = exercise(&mut ctx, stmt) {
                 println!("VIOLATION reproduced: {} at {}", p.message, p.location);
